@@ -4,6 +4,7 @@ package main
 
 import (
 	"fmt"
+	"os"
 	"go/ast"
 	"go/constant"
 	"go/token"
@@ -29,6 +30,7 @@ type Obligation struct {
 	Models   []*Term
 	ModelNames []string
 	Clause   *Clause
+	Seq      int
 }
 
 type Engine struct {
@@ -54,17 +56,24 @@ type Engine struct {
 
 	// per-VC-run
 	facts     []*Term
+	factKind  []string
+	factSeq   []int
+	seq       int
+	supersededAt map[*Term]int
+	havocConst map[*Term]bool
+	regionFrame map[*Term]*regionFrameRec // fresh region array -> what it equals outside [lo,hi)
 	obls      []*Obligation
 	curFunc   string
 	curProps  []string
 	restart   bool
-	havocCells map[*ssa.BasicBlock]map[*Cell]bool
+	havocCells map[*ssa.BasicBlock]map[ssa.Value]bool
 	havocHeaps map[*ssa.BasicBlock]map[string]bool
 	havocClock map[*ssa.BasicBlock]bool
 	safetyN   map[string]int
 	notes     []string // abstraction notes for evidence
 	inlineDepthLimit int
 	nocheck   bool
+	ghostDepth int
 	astPkgs   map[string][]*ast.File
 	errGlobals []*Term
 }
@@ -80,8 +89,19 @@ func NewEngine(prog *ssa.Program) *Engine {
 }
 
 // resetRun clears per-run state but keeps declarations.
+type regionFrameRec struct {
+	base   *Term
+	lo, hi *Term
+}
+
 func (e *Engine) resetRun() {
 	e.facts = nil
+	e.factKind = nil
+	e.factSeq = nil
+	e.seq = 0
+	e.supersededAt = map[*Term]int{}
+	e.havocConst = map[*Term]bool{}
+	e.regionFrame = map[*Term]*regionFrameRec{}
 	e.obls = nil
 	e.safetyN = map[string]int{}
 	e.globalsUsed = map[string]bool{}
@@ -89,11 +109,16 @@ func (e *Engine) resetRun() {
 	e.restart = false
 }
 
-func (e *Engine) addFact(s *State, f *Term) {
-	if f.IsTrue() || f.open {
+func (e *Engine) addFact(s *State, f *Term) { e.addFactK(s, f, "") }
+
+func (e *Engine) addFactK(s *State, f *Term, kind string) {
+	if f.IsTrue() || f.open || e.ghostDepth > 0 {
 		return
 	}
 	e.facts = append(e.facts, e.tb.Implies(s.cond, f))
+	e.factKind = append(e.factKind, kind)
+	e.seq++
+	e.factSeq = append(e.factSeq, e.seq)
 }
 
 func (e *Engine) addGlobalFact(f *Term) {
@@ -101,6 +126,9 @@ func (e *Engine) addGlobalFact(f *Term) {
 		return
 	}
 	e.facts = append(e.facts, f)
+	e.factKind = append(e.factKind, "")
+	e.seq++
+	e.factSeq = append(e.factSeq, e.seq)
 }
 
 type Frame struct {
@@ -353,7 +381,7 @@ func (e *Engine) execAlloc(fr *Frame, st *State, a *ssa.Alloc) Val {
 	t := a.Type().(*types.Pointer).Elem()
 	var p *PtrVal
 	if e.cellable(a, map[ssa.Value]bool{}) {
-		c := &Cell{name: a.Comment, typ: t}
+		c := &Cell{name: a.Comment, typ: t, key: a}
 		fr.cells[a] = c
 		st.cells[c] = e.zero(t)
 		p = &PtrVal{Kind: KCell, Cell: c, Typ: t}
@@ -385,7 +413,7 @@ func (e *Engine) safety(fr *Frame, st *State, kind string, instr ssa.Instruction
 	label := fmt.Sprintf("%s#%d", where, e.safetyN[key])
 	o := &Obligation{Name: fname + "/" + kind + "/" + label, Kind: kind, Func: fname, Label: label, Cond: st.cond, Goal: goal,
 		NFacts: len(e.facts), Pos: e.prog.Fset.Position(instr.Pos())}
-	e.obls = append(e.obls, o)
+	e.obls = e.appendObl(o)
 	// after the check, execution continues only if it held
 	e.addFact(st, goal)
 }
@@ -934,7 +962,8 @@ func (e *Engine) copyInto(fr *Frame, st *State, ref, doff *Term, src func(k *Ter
 	if fr.bound {
 		unsupported("copy under a quantifier")
 	}
-	e.addFact(st, tb.Forall([]*Term{k}, body, tb.mk("select", SBV8, "", nil, na, k)))
+	e.addFactK(st, tb.Forall([]*Term{k}, body, tb.mk("select", SBV8, "", nil, na, k)), "hframe")
+	e.regionFrame[na] = &regionFrameRec{base: old, lo: doff, hi: tb.BVBin("bvadd", doff, n)}
 	e.setRegion(st, SBV8, ref, na)
 }
 
@@ -1099,10 +1128,30 @@ func computeOrder(fn *ssa.Function) *blockOrder {
 	visited := map[*ssa.BasicBlock]bool{}
 	var post []*ssa.BasicBlock
 	var dfs func(b *ssa.BasicBlock)
+	depth := func(b *ssa.BasicBlock) int {
+		d := 0
+		for _, body := range bo.loops {
+			if body[b] {
+				d++
+			}
+		}
+		return d
+	}
 	dfs = func(b *ssa.BasicBlock) {
 		visited[b] = true
-		for i := len(b.Succs) - 1; i >= 0; i-- {
-			s := b.Succs[i]
+		// visit loop exits first so that, in reverse postorder, a loop's body precedes its continuation
+		succs := append([]*ssa.BasicBlock{}, b.Succs...)
+		sort.SliceStable(succs, func(i, j int) bool {
+			di, dj := depth(succs[i]), depth(succs[j])
+			if di != dj {
+				return di < dj
+			}
+			return false
+		})
+		if len(succs) == 2 && depth(succs[0]) == depth(succs[1]) {
+			succs[0], succs[1] = succs[1], succs[0]
+		}
+		for _, s := range succs {
 			if bo.back[[2]*ssa.BasicBlock{b, s}] || visited[s] {
 				continue
 			}
@@ -1182,6 +1231,11 @@ func (e *Engine) runBody(fr *Frame, st *State) ([]Val, *State) {
 	fr.entry = st.clone()
 	bo := computeOrder(fn)
 	loopOrd := e.loopOrdinals(fn, bo)
+	if os.Getenv("GOVC_DEBUG") != "" && fr.depth == 0 && !fr.ghost {
+		for _, b := range bo.order {
+			fmt.Fprintf(os.Stderr, "ORDER %s: block %d %s\n", fn.Name(), b.Index, b.Comment)
+		}
+	}
 	for _, b := range bo.order {
 		var st0 *State
 		if b == fn.Blocks[0] {
@@ -1313,7 +1367,7 @@ func (e *Engine) execPanic(fr *Frame, st *State, ins *ssa.Panic) {
 	key := e.curFunc + "/no-panic"
 	e.safetyN[key]++
 	label := fmt.Sprintf("%s#%d", fr.fn.Name(), e.safetyN[key])
-	e.obls = append(e.obls, &Obligation{Name: e.curFunc + "/no-panic/" + label, Kind: "no-panic", Func: e.curFunc, Label: label,
+	e.obls = e.appendObl(&Obligation{Name: e.curFunc + "/no-panic/" + label, Kind: "no-panic", Func: e.curFunc, Label: label,
 		Cond: st.cond, Goal: e.tb.False(), NFacts: len(e.facts), Pos: e.prog.Fset.Position(ins.Pos())})
 }
 
@@ -1387,14 +1441,17 @@ func (e *Engine) enterLoop(fr *Frame, st *State, h *ssa.BasicBlock, bo *blockOrd
 	}
 	// havoc
 	if e.havocCells[h] == nil {
-		e.havocCells[h] = map[*Cell]bool{}
+		e.havocCells[h] = map[ssa.Value]bool{}
 		e.havocHeaps[h] = map[string]bool{}
 	}
 	pre := st.clone()
 	var names []string
 	cellByName := map[string]*Cell{}
-	for c := range e.havocCells[h] {
-		n := fmt.Sprintf("%s#%d", c.name, c.id)
+	for c := range st.cells {
+		if c.key == nil || !e.havocCells[h][c.key] {
+			continue
+		}
+		n := fmt.Sprintf("%s#%s", c.name, c.key.Name())
 		names = append(names, n)
 		cellByName[n] = c
 	}
@@ -1425,7 +1482,7 @@ func (e *Engine) enterLoop(fr *Frame, st *State, h *ssa.BasicBlock, bo *blockOrd
 	}
 	for _, cl := range spec.Invariants {
 		g := e.evalClause(fr, st, fr.entry, cl, nil)
-		e.addFact(st, g)
+		e.addFactQ(st, g)
 	}
 	lr := &loopRec{head: st.clone(), ord: ord, spec: spec, targets: targets}
 	if spec.Decreases != nil {
@@ -1453,13 +1510,22 @@ func (e *Engine) havocHeap(fr *Frame, st, pre *State, n string, targets []*havoc
 			continue
 		}
 		fv := tb.Fresh(hint+"_"+n+"_v", elemSort)
+		e.havocConst[fv] = true
+		prev := tb.Select(cur, t.ref)
+		if e.havocConst[prev] {
+			e.seq++
+			e.supersededAt[prev] = e.seq
+			if os.Getenv("GOVC_DEBUG") != "" {
+				fmt.Fprintf(os.Stderr, "SUPERSEDE %s by %s at %d (hint %s)\n", prev.Name, fv.Name, len(e.facts), hint)
+			}
+		}
 		if t.lo != nil {
 			// bytes range: outside [lo,hi) unchanged
-			old := tb.Select(cur, t.ref)
 			k := tb.BoundVar("k", SBV64)
 			in := tb.And(tb.BVCmp("bvsle", t.lo, k), tb.BVCmp("bvslt", k, t.hi))
 			_, es, _ := elemSort.ArrayParts()
-			e.addFact(st, tb.Forall([]*Term{k}, tb.Implies(tb.Not(in), tb.Eq(tb.Select(fv, k), tb.Select(old, k))), tb.mk("select", es, "", nil, fv, k)))
+			e.addFactK(st, tb.Forall([]*Term{k}, tb.Implies(tb.Not(in), tb.Eq(tb.Select(fv, k), tb.Select(prev, k))), tb.mk("select", es, "", nil, fv, k)), "hframe")
+			e.regionFrame[fv] = &regionFrameRec{base: prev, lo: t.lo, hi: t.hi}
 		}
 		h = tb.Store(h, t.ref, fv)
 	}
@@ -1495,12 +1561,11 @@ func (e *Engine) backEdge(fr *Frame, st *State, from, h *ssa.BasicBlock) {
 	// discovery of modified cells / heaps
 	for c, v := range st.cells {
 		hv, ok := lr.head.cells[c]
-		if (!ok || hv != v) && !e.havocCells[h][c] {
-			if !ok {
-				// declared inside the loop: only matters if it is read before written; havoc anyway
-			}
-			c.id = len(e.havocCells[h]) + 1
-			e.havocCells[h][c] = true
+		if !ok {
+			continue // allocated inside the loop body: initialised on every iteration
+		}
+		if hv != v && c.key != nil && !e.havocCells[h][c.key] {
+			e.havocCells[h][c.key] = true
 			e.restart = true
 		}
 	}
@@ -1523,6 +1588,28 @@ func (e *Engine) backEdge(fr *Frame, st *State, from, h *ssa.BasicBlock) {
 	}
 	for _, cl := range lr.spec.Invariants {
 		g := e.evalClause(fr, st, fr.entry, cl, nil)
+		var sp *SplitHint
+		for _, s := range lr.spec.Splits {
+			if s.Label == cl.Label {
+				sp = s
+			}
+		}
+		if sp != nil && g.Op == "forall" && len(g.Bnd) == 1 {
+			// proof hint: case split of the quantified index on base, base+1, ..., base+count-1 and the rest
+			base := e.evalClause(fr, st, fr.entry, sp.Base, nil)
+			k := g.Bnd[0]
+			for c := 0; c < sp.Count; c++ {
+				inst := tb.Subst(g.Args[0], map[*Term]*Term{k: tb.BVBin("bvadd", base, tb.BV(int64(c), 64))})
+				e.addObligation(fr, st, "inv-keep", fmt.Sprintf("loop%d.%s#%d", lr.ord, cl.Label, c), inst, cl)
+			}
+			lo := tb.Fresh("sk_lo", SBV64)
+			e.addObligation(fr, st, "inv-keep", fmt.Sprintf("loop%d.%s#below", lr.ord, cl.Label),
+				tb.Implies(tb.BVCmp("bvslt", lo, base), tb.Subst(g.Args[0], map[*Term]*Term{k: lo})), cl)
+			hi := tb.Fresh("sk_hi", SBV64)
+			e.addObligation(fr, st, "inv-keep", fmt.Sprintf("loop%d.%s#above", lr.ord, cl.Label),
+				tb.Implies(tb.BVCmp("bvsge", hi, tb.BVBin("bvadd", base, tb.BV(int64(sp.Count), 64))), tb.Subst(g.Args[0], map[*Term]*Term{k: hi})), cl)
+			continue
+		}
 		e.addObligation(fr, st, "inv-keep", fmt.Sprintf("loop%d.%s", lr.ord, cl.Label), g, cl)
 	}
 	if lr.spec.Decreases != nil {
@@ -1544,7 +1631,7 @@ func (e *Engine) addObligation(fr *Frame, st *State, kind, label string, goal *T
 		o.Pos = token.Position{Filename: cl.File, Line: cl.Line}
 		o.Unproved = cl.Unproved
 	}
-	e.obls = append(e.obls, o)
+	e.obls = e.appendObl(o)
 }
 
 // frameObligations: every location not among targets is unchanged between base and st.
@@ -1576,6 +1663,21 @@ func (e *Engine) frameObligations(fr *Frame, st, base *State, targets []*havocTa
 				continue
 			}
 			conds = append(conds, tb.Not(tb.Eq(x, t.ref)))
+		}
+		if sg, ok := e.syntacticFrame(cur, old, targets, n, clock0); ok {
+			if sg.Op == "and" && len(sg.Args) > 4 {
+				// many written locations: one obligation per group of four keeps each query small
+				for i := 0; i < len(sg.Args); i += 4 {
+					j := i + 4
+					if j > len(sg.Args) {
+						j = len(sg.Args)
+					}
+					e.addObligation(fr, st, "frame", fmt.Sprintf("%s.%s#%d", label, heapLabel(n), i/4), tb.And(sg.Args[i:j]...), nil)
+				}
+				continue
+			}
+			e.addObligation(fr, st, "frame", label+"."+heapLabel(n), sg, nil)
+			continue
 		}
 		var goal *Term
 		if len(ranged) == 0 {
@@ -1718,4 +1820,155 @@ func (e *Engine) valueEq(fr *Frame, st *State, a, b *Term, t types.Type) *Term {
 		}
 	}
 	return tb.Eq(a, b)
+}
+
+
+// syntacticFrame derives a sufficient, array-free condition for "cur differs from base only at the
+// target locations" from the store/ite structure of the heap term. ok=false: structure unknown.
+func (e *Engine) syntacticFrame(cur, base *Term, targets []*havocTarget, heap string, clock0 *Term) (*Term, bool) {
+	tb := e.tb
+	allowedRef := func(ref *Term) *Term { // ref may be written at all (whole object / any index)
+		var alts []*Term
+		if tb.isNewRef(ref) {
+			return tb.True()
+		}
+		if !tb.OldRefs[ref] {
+			alts = append(alts, tb.IntCmp(">=", tb.RootID(ref), clock0))
+		}
+		for _, t := range targets {
+			if t.heap == heap && t.lo == nil {
+				alts = append(alts, tb.Eq(ref, t.ref))
+			}
+		}
+		return tb.Or(alts...)
+	}
+	allowedIdx := func(ref, idx *Term) *Term {
+		alts := []*Term{allowedRef(ref)}
+		for _, t := range targets {
+			if t.heap == heap && t.lo != nil {
+				alts = append(alts, tb.And(tb.Eq(ref, t.ref), tb.BVCmp("bvsle", t.lo, idx), tb.BVCmp("bvslt", idx, t.hi)))
+			}
+		}
+		return tb.Or(alts...)
+	}
+	allowedRange := func(ref, lo, hi *Term) *Term {
+		alts := []*Term{allowedRef(ref), tb.BVCmp("bvsge", lo, hi)}
+		for _, t := range targets {
+			if t.heap == heap && t.lo != nil {
+				alts = append(alts, tb.And(tb.Eq(ref, t.ref), tb.BVCmp("bvsle", t.lo, lo), tb.BVCmp("bvsle", hi, t.hi)))
+			}
+		}
+		return tb.Or(alts...)
+	}
+	var region func(arr, basearr, ref *Term, depth int) (*Term, bool)
+	region = func(arr, basearr, ref *Term, depth int) (*Term, bool) {
+		if arr == basearr {
+			return tb.True(), true
+		}
+		if depth > 400 {
+			return nil, false
+		}
+		switch {
+		case arr.Op == "store":
+			r, ok := region(arr.Args[0], basearr, ref, depth+1)
+			if !ok {
+				return nil, false
+			}
+			if arr.Args[1].Sort != SBV64 {
+				return nil, false
+			}
+			return tb.And(r, allowedIdx(ref, arr.Args[1])), true
+		case arr.Op == "ite":
+			a, ok1 := region(arr.Args[1], basearr, ref, depth+1)
+			b, ok2 := region(arr.Args[2], basearr, ref, depth+1)
+			if !ok1 || !ok2 {
+				return nil, false
+			}
+			return tb.And(tb.Implies(arr.Args[0], a), tb.Implies(tb.Not(arr.Args[0]), b)), true
+		case arr.Op == "constarr":
+			return allowedRef(ref), true
+		}
+		if rf, ok := e.regionFrame[arr]; ok {
+			r, ok := region(rf.base, basearr, ref, depth+1)
+			if !ok {
+				return nil, false
+			}
+			return tb.And(r, allowedRange(ref, rf.lo, rf.hi)), true
+		}
+		// an unrelated array: only fine if the whole region may be written
+		return allowedRef(ref), true
+	}
+	// the chain of base: terms reachable through store bases
+	baseChain := map[*Term]bool{}
+	for b := base; ; b = b.Args[0] {
+		baseChain[b] = true
+		if b.Op != "store" {
+			break
+		}
+	}
+	var heapLevel func(h *Term, depth int) (*Term, bool)
+	heapLevel = func(h *Term, depth int) (*Term, bool) {
+		if h == base {
+			return tb.True(), true
+		}
+		if baseChain[h] && h != base {
+			// h is a proper ancestor of base: the stores base adds on top of h must all be
+			// overwritten by cur; checked by the caller through region comparison with select(base, ref)
+			return tb.True(), true
+		}
+		if depth > 400 {
+			return nil, false
+		}
+		switch h.Op {
+		case "store":
+			inner, ok := heapLevel(h.Args[0], depth+1)
+			if !ok {
+				return nil, false
+			}
+			ref, val := h.Args[1], h.Args[2]
+			if _, _, isArr := val.Sort.ArrayParts(); isArr {
+				r, ok := region(val, tb.Select(base, ref), ref, 0)
+				if !ok {
+					return nil, false
+				}
+				return tb.And(inner, r), true
+			}
+			return tb.And(inner, allowedRef(ref)), true
+		case "ite":
+			a, ok1 := heapLevel(h.Args[1], depth+1)
+			b, ok2 := heapLevel(h.Args[2], depth+1)
+			if !ok1 || !ok2 {
+				return nil, false
+			}
+			return tb.And(tb.Implies(h.Args[0], a), tb.Implies(tb.Not(h.Args[0]), b)), true
+		}
+		return nil, false
+	}
+	g, ok := heapLevel(cur, 0)
+	if !ok {
+		return nil, false
+	}
+	// every store that base has on top of the common ancestor must be syntactically overwritten in cur
+	curRefs := map[*Term]bool{}
+	common := cur
+	for common.Op == "store" && !baseChain[common] {
+		curRefs[common.Args[1]] = true
+		common = common.Args[0]
+	}
+	if cur.Op == "ite" {
+		return g, true // ite structure: handled recursively against base itself
+	}
+	for b := base; b != common; b = b.Args[0] {
+		if b.Op != "store" || !curRefs[b.Args[1]] {
+			return nil, false
+		}
+	}
+	return g, true
+}
+
+
+func (e *Engine) appendObl(o *Obligation) []*Obligation {
+	e.seq++
+	o.Seq = e.seq
+	return append(e.obls, o)
 }
